@@ -21,6 +21,13 @@ def gen(ck, n):
         p = proggen.defuse_program(ck.rng, n + i + 1)
         p["xf"] = ck.rng.choice([["dce"], ["dce"], ["dce", "simplify"], ["simplify", "dce", "simplify"], ["lsa", "dce"]])
         ps.append(p)
+    for i in range(max(10, n // 12)):      # loops with two back edges (liveness of the kill-gen iterator under DCE)
+        p = proggen.program(ck.rng, 5 * n + i + 1, shape="twolatch", asserts=True, nints=3, nbools=0, profile="c17", nstmts=(0, 2))
+        outs = sorted(ck.rng.sample([1, 2, 3], ck.rng.randint(1, 2)))
+        p["fn"] = {"name": "f", "in": [], "out": outs}
+        p["outs"] = outs
+        p["xf"] = ck.rng.choice([["dce"], ["dce", "simplify"], ["simplify", "dce", "simplify"]])
+        ps.append(p)
     for i in range(max(16, n // 8)):
         p = proggen.defuse_bool_program(ck.rng, 4 * n + i + 1)
         p["xf"] = ck.rng.choice([["dce"], ["dce"], ["dce", "simplify"], ["simplify", "dce", "simplify"]])
